@@ -74,7 +74,37 @@ sys.exit(bad)
 '''
 
 
+LIST_CONST = '''
+import sys, math
+import numpy as np
+import onnx_ir as ir
+from onnxscript.rewriter import pattern as orp
+def run(pvals, rel, ab, cvals):
+    def pat(op, x):
+        return op.Add(x, orp.Constant(list(pvals), rel_tol=rel, abs_tol=ab))
+    def rep(op, x, **_):
+        return op.Identity(x)
+    rule = orp.RewriteRule(pat, rep)
+    x = ir.Value(name="x", type=ir.TensorType(ir.DataType.FLOAT), shape=ir.Shape([len(cvals)]))
+    c = ir.Value(name="c", type=ir.TensorType(ir.DataType.DOUBLE), shape=ir.Shape([len(cvals)]), const_value=ir.tensor(np.array(cvals, dtype=np.float64), name="c"))
+    n = ir.Node("", "Add", [x, c]); n.outputs[0].name = "y"
+    g = ir.Graph([x], [n.outputs[0]], nodes=[n], initializers=[c], opset_imports={"": 18}, name="g")
+    return rule.apply_to_model(ir.Model(g, ir_version=10)) > 0
+bad = 0
+for pvals, rel, ab, cvals in (([1.0, 2.0], 0.1, 0.05, [1.12, 2.0]), ([1.0, 2.0], 0.5, 0.0, [1.9, 2.0]), ([1e-3, 1.0], 1e-5, 1e-8, [1e-3 + 1.7e-8, 1.0]),
+                              ([1.0, 2.0], 1e-5, 1e-8, [1.0, 2.0]), ([1.0, 2.0], 1e-5, 1e-8, [1.0, 2.1])):
+    want = all(math.isclose(c, p, rel_tol=rel, abs_tol=ab) for c, p in zip(cvals, pvals))
+    got = run(pvals, rel, ab, cvals)
+    if got != want:
+        print(f"Constant({pvals}, rel_tol={rel}, abs_tol={ab}) against {cvals}: matched={got}, stated tolerance says {want}")
+        bad += 1
+sys.exit(1 if bad else 0)
+'''
+
+
 def replay(ob):
+    if "match_constant.list" in ob["name"]:
+        return LIST_CONST
     if "a_false_result_is_recorded_as_a_failed_match" in ob["name"]:
         return FEWER_OUTPUTS
     if "clone.or_pattern" in ob["name"]:
